@@ -65,6 +65,26 @@ def _isint(t):
     return t.sort() == z3.IntSort()
 
 
+def int_view(t, depth=0):
+    """the Int-sorted term equal to real term t when t is integral by construction (ToReal(x), numerals, If of such), else None"""
+    if _isint(t):
+        return t
+    if depth > 12:
+        return None
+    k = t.decl().kind()
+    if k == z3.Z3_OP_TO_REAL:
+        return t.arg(0)
+    if z3.is_rational_value(t):
+        if t.denominator_as_long() == 1:
+            return z3.IntVal(t.numerator_as_long())
+        return None
+    if k == z3.Z3_OP_ITE:
+        a, b = int_view(t.arg(1), depth + 1), int_view(t.arg(2), depth + 1)
+        if a is not None and b is not None:
+            return z3.If(t.arg(0), a, b)
+    return None
+
+
 # ----------------------------------------------------------------------------- booleans
 class SB:
     __slots__ = ("t",)
@@ -245,20 +265,24 @@ class SR:
         return bool(self != 0)
 
     def trunc(self):
-        if _isint(self.t):
-            return self
+        iv = int_view(self.t)
+        if iv is not None:
+            return SR(iv)
         t = self.t
         return SR(z3.If(t >= 0, z3.ToInt(t), -z3.ToInt(-t)))
 
     def floor(self):
-        return self if _isint(self.t) else SR(z3.ToInt(self.t))
+        iv = int_view(self.t)
+        return SR(iv) if iv is not None else SR(z3.ToInt(self.t))
 
     def ceil(self):
-        return self if _isint(self.t) else SR(-z3.ToInt(-self.t))
+        iv = int_view(self.t)
+        return SR(iv) if iv is not None else SR(-z3.ToInt(-self.t))
 
     def round_half_even(self):
-        if _isint(self.t):
-            return self
+        iv = int_view(self.t)
+        if iv is not None:
+            return SR(iv)
         h = self.t + z3.RealVal("1/2")
         f = z3.ToInt(h)
         tie = z3.ToReal(f) == h
